@@ -1,8 +1,54 @@
 (* C04 — Query text is compiled into the structure its syntax denotes.
-   PARTIAL: the end-to-end statement over query TEXT is decided by the
-   correspondence + spec runs (the ANTLR query parser is not modelled); proved
-   here, over the listener model that runs on any tree, are the denotations. *)
-From Zorg Require Import Base.PyStr Base.Res Base.Dates Model.FileListener Model.QueryListener Proofs.QueryFacts.
+   Proved end-to-end on the listener: for EVERY abstract well-formed query (coq/Model/QuerySyntax.v: any number of
+   and-groups and alternatives, sub-filters nested to any depth, every modelled atom form, every S / O / G clause in
+   either order), the listener run on the tree the parser builds for the query's text yields exactly the structure
+   spec_query reads off the query (C04_query_denotes_its_structure).  That the parser builds tree_of_query for that
+   text is NOT proved (the ANTLR parser is not modelled): the harness compares tree_of_query with the real parse tree
+   and spec_query with the real compilation on every generated query of every run.  The denotations of the atom texts
+   (priority ranges, relative dates) are the theorems below. *)
+From Zorg Require Import Base.PyStr Base.Res Base.Dates Model.FileListener Model.QueryListener Proofs.QueryFacts
+  Model.PageSyntax Model.QuerySyntax Proofs.QueryStructFacts.
+
+(* atoms juxtaposed in one and-group are folded in order into one filter; alternatives become separate and-groups;
+   every parenthesised sub-filter becomes one `ors` entry of the and-group it is written in, in order, to any depth;
+   S / O / G set select, order and grouping (either clause order); absent clauses leave S note, the four default
+   ORDER BY keys, no grouping, no WHERE. *)
+Theorem C04_query_denotes_its_structure : forall today q qq,
+  spec_query today q = Ok qq -> qlisten today (tree_of_query q) = Ok qq.
+Proof. exact query_correct. Qed.
+
+(* what one atom contributes, read off its fields *)
+Theorem C04_atom_reading : forall today f a,
+  spec_atom today f a =
+  match a with
+  | AKinds ks => Ok (af_kinds f (map kch_str ks))
+  | APrio p hi => x <- priorities_of (atom_text a) ;; Ok (af_prios f x)
+  | ATag neg k s => Ok (af_tag f k ((if neg then S "-" else []) ++ s))
+  | ACreate h t => r <- range_of today h t ;; Ok (af_create f r)
+  | AModify h t => r <- range_of today h t ;; Ok (af_modify f r)
+  | AProp _ _ _ _ => x <- prop_filter_of (atom_text a) ;; Ok (af_prop f x)
+  | ALink neg _ _ =>
+      let t := atom_text a in
+      Ok (af_link f (if neg then firstn (length t - 5) (skipn 3 t) else firstn (length t - 4) (skipn 2 t), neg))
+  | AFile neg _ _ _ =>
+      let t := atom_text a in
+      let g := if neg then skipn 3 t else skipn 2 t in
+      Ok (af_file f (if endswith (S "*") g then g else g ++ S ".zo", neg))
+  | ASub _ => Ok f
+  end.
+Proof. intros. destruct a; reflexivity. Qed.
+
+(* non-vacuity: W o #a (x | @b !+p) k:>v1 O alpha G file *)
+Definition ex_query : aquery :=
+  QWhere None [[AKinds [KO]; ATag false KArea (S "a");
+                ASub [[AKinds [KX]]; [ATag false KContext (S "b"); ATag true KProject (S "p")]];
+                AProp false (S "k") (Some (S ">")) (Some (S "v1"))]]
+         (OGOG [OAlpha] [GFile]).
+Example C04_query_example :
+  exists qq, spec_query (mkDate 2024 6 1) ex_query = Ok qq /\ q_order qq = [S "ALPHA"] /\ q_group qq = [S "FILE"] /\
+             match q_where qq with Some [AF [k] [a] _ _ _ _ _ [p] _ _ _ _ [[_; _]]] => k = S "o" /\ a = S "a" | _ => False end.
+Proof. eexists. split; [vm_compute; reflexivity|]. repeat split. Qed.
+
 Local Open Scope Z_scope.
 
 (* Pn-m denotes every priority from n to m inclusive: all 64 spellings *)
@@ -58,6 +104,8 @@ Theorem C04_process_query_G : forall q,
   startswith (S "W ") q = true -> contains (S " G ") q = false -> process_query q = q ++ S " G file".
 Proof. exact process_query_default_group. Qed.
 
+Print Assumptions C04_query_denotes_its_structure.
+Print Assumptions C04_atom_reading.
 Print Assumptions C04_prio_ranges.
 Print Assumptions C04_month_arithmetic.
 Print Assumptions C04_month_result_valid.
